@@ -1167,7 +1167,7 @@ CALL_HELPER_MODULE = ('class Helper:\n    def __call__(self):\n        return se
 CALL_PRELUDE = 'class R:\n    ra = 1\n    def meth(self):\n        return self\n    @property\n    def prop(self):\n        return self\n'
 
 
-def call_cases():
+def call_cases(all_pairs=False):
     """"call of everything": instances whose special methods are bound in every odd way, calls of names bound to
     different kinds of values on different branches, of module attributes, of runtime objects, of call results -
     each followed by attribute completion / go-to-definition on the result (every (line, col) is tried)"""
@@ -1186,7 +1186,8 @@ def call_cases():
         # alone
         text = CALL_PRELUDE + pa + 'r = %s()\nr.zz\n%s().zz\n%s()().zz\n%s().ra.zz\n' % (ea, ea, ea, ea)
         out.append(_case('calls:single:%s' % la, text, files=files))
-        for lb, pb, eb in CALLABLES[i + 1:]:
+        rest = CALLABLES[i + 1:] + CALLABLES[:i]
+        for lb, pb, eb in (CALLABLES[i + 1:] if all_pairs else rest[:3] + rest[7::9]):
             text = (CALL_PRELUDE + pa + pb + 'if c:\n    h = %s\nelse:\n    h = %s\nr = h()\nr.zz\nh().zz\nh()().zz\n' % (ea, eb))
             out.append(_case('calls:either:%s|%s' % (la, lb), text, files=files,
                              positions='tail:5'))
@@ -1240,7 +1241,7 @@ _FAMILY_CACHE = {}
 
 
 def family(name, tier='quick'):
-    key = (name, tier if name in ('flat', 'chars', 'growth', 'chains') else '')
+    key = (name, tier if name in ('flat', 'chars', 'growth', 'chains', 'calls') else '')
     if key not in _FAMILY_CACHE:
         _FAMILY_CACHE[key] = _family(name, tier)
     return _FAMILY_CACHE[key]
@@ -1256,7 +1257,7 @@ def _family(name, tier='quick'):
     if name == 'chars':
         return char_cases(big=tier != 'quick')
     if name == 'calls':
-        out = call_cases()
+        out = call_cases(all_pairs=tier != 'quick')
         for c in out:
             if isinstance(c['positions'], str) and c['positions'].startswith('tail:'):
                 # only the last rows (the prelude is the same in every text and is tried in full by the 'single' cases)
